@@ -129,7 +129,7 @@ def run(ck, F, tier):
     # ---- S2 / S3 / S4 on encode ---------------------------------------------------------
     eb = F.body(ENCODE)
     # helpers of the encoder module (e.g. an extracted running-sum function) are expanded at their call sites
-    te = Tracer(F, r"ndarray::concatenate|ndarray::.*::dot|ndarray::.*::from_iter|ndarray::.*::accumulate_axis_inplace", mode="int",
+    te = Tracer(F, r"ndarray::concatenate|ndarray::.*::dot|ndarray::.*::from_iter|ndarray::.*::accumulate_axis_inplace|std::iter::Iterator::collect", mode="int",
                 inline=lambda p: F.bodies.get(p) if p and p.startswith("encoder::") and p != ENCODE else None)
     env = {}
     for p, nm in zip(eb.params, ("self", "message")):
@@ -162,6 +162,33 @@ def run(ck, F, tier):
         "contract:iter_row:row": (0, ""),
         "index:ndarray::ArrayBase": (2, "message[k] with k < cols-rows = message length (caller's contract); parity[j-1], parity[j] with 1 <= j < parity.len()"),
     }, domain=[]).run()
+    # S3: the parity before accumulation is H0 * message: entry j is the GF(2) sum of message[k] over every k in row j of the stored H0
+    from ..idioms import as_closure as _asc
+    from ..symx import unkey as _unkey
+    fi = [e for e in te.events if (e.callee.endswith("::from_iter") or e.callee.endswith("Iterator::collect")) and any("Staircase" in repr(g) and p for g, p in e.guards)
+          and isinstance(e.args[0], tuple) and e.args[0][0] == "iterdesc" and e.args[0][1][0] == "map" and e.args[0][1][1][0] == "range"]
+    ok_ip, why_ip = False, "no from_iter over the rows of the stored matrix in the Staircase arm"
+    if len(fi) == 1 and isinstance(fi[0].args[0], tuple) and fi[0].args[0][0] == "iterdesc":
+        d = fi[0].args[0][1]
+        G = var("self.encoder.gen_matrix")
+        SM_ = "sparse::SparseMatrix::"
+        if d[0] == "map" and d[1][0] == "range" and d[1][1] == num(0) and d[1][2] == app(SM_ + "num_rows", G) and not d[1][3]:
+            try:
+                fv = te.apply(_asc(F, te, d[2]), [var("j#g")])
+                fa = single_atom(fv) if isinstance(fv, Poly) else None
+                if fa is not None and atom_fn(fa) == "std::iter::Iterator::sum" and isinstance(fa[2], tuple) and fa[2][0] == "iterdesc":
+                    dd = _unkey(fa[2])[1]
+                    src_ok = dd[0] == "map" and dd[1] in (("elems", app(SM_ + "iter_row", G, var("j#g"))), ("elems", ("P", app(SM_ + "iter_row", G, var("j#g")))))
+                    gv = te.apply(_asc(F, te, dd[2]), [var("k#g")]) if src_ok else None
+                    ok_ip = src_ok and gv == app("index", var("message"), var("k#g"))
+                    why_ip = "parity0[j] = sum over k in iter_row(H0, j) of message[k] (rows 0..num_rows, whole rows: %s; term %r)" % (src_ok, gv)
+                else:
+                    why_ip = "parity0[j] = %r - not the sum over the row" % (fv,)
+            except Unsupported as ex:
+                why_ip = "row closure unreadable: %s" % ex
+        else:
+            why_ip = "rows visited: %r" % (d[1],)
+    ck.inst("S3", "encode:initial-parity", ok_ip, fi[0].site if fi else eb.span, why_ip[:400])
     # S3: accumulate loop
     acc = staircase.accepted_set(F)
     asg = [e for e in te.events if e.callee == "<assign>" and e.loops]
